@@ -1,10 +1,12 @@
 #!/bin/bash
 # usage: seedtest.sh <seed-dir-name> <check-id> [tier]  — apply seeded/<name>/patch.diff to /repo, run the check, undo.
 N=$1; C=$2; T=${3:-quick}
+# SEED_REPO (default /repo): the tree the patch is applied to; a scratch worktree keeps /repo free for other runs
+R=${SEED_REPO:-/repo}
 cd /verif
-[ -z "$(git -C /repo status --porcelain)" ] || { echo "/repo not clean"; exit 2; }
-git -C /repo apply /verif/seeded/$N/patch.diff || exit 2
-./check $C $T > /tmp/seedtest-$N-$C.log 2>&1; RC=$?
-git -C /repo checkout -- .
+[ -z "$(git -C $R status --porcelain)" ] || { echo "$R not clean"; exit 2; }
+git -C $R apply /verif/seeded/$N/patch.diff || exit 2
+VERIF_REPO=$R ./check $C $T > /tmp/seedtest-$N-$C.log 2>&1; RC=$?
+git -C $R checkout -- .
 echo "seed=$N check=$C tier=$T exit=$RC $(grep -c '^VIOLATION' /tmp/seedtest-$N-$C.log) violation lines; $(grep -m1 'what:' /tmp/seedtest-$N-$C.log | cut -c1-300)"
 tail -1 /tmp/seedtest-$N-$C.log
